@@ -75,6 +75,13 @@ def run_reclaimer(ctx):
                 # the queuing thread frozen after k steps; the reclaimer runs until it sleeps; then everybody goes on
                 cases.append((prog, vf * k + recf * 120))
                 if k % 6 == 0: cases.append((prog, vf * k + recf * 25 + vf * 6 + recf * 120))
+    # targeted family: a call queued while a grace period of the reclaimer (or of an explicit rcu_defer_barrier()) is already waiting for reader 1; reader 2
+    # enters its section after that grace period started (so that grace period does not wait for it) and before the call is queued: the call must wait for
+    # another grace period.  Thread ids: 0 queues, 1 and 2 read, the next one is the barrier caller (second program) / the library's reclaimer thread.
+    for prog, w in (('RD1D2WU/()/()', '3d'), ('RD1D2WU/()/()/B', '3d'), ('RD1D2D3WU/()/()', '3d')):
+        for n1 in (30, 60, 120, 200):
+            for mid in ('>2>0', '>0>2', '>2>0>0'):
+                cases.append((prog, '>1>0>0' + w * n1 + mid + '>1' + w * 300))
     n = len(cases) + (150 if ctx.quick() else 3000)
     while len(cases) < n:
         prog = ctx.rng.choice(RPROGS); th = [str(i) for i in range(prog.count('/') + 2)]
